@@ -20,7 +20,11 @@ def parseBin : String → Option Bin
   | "lt" => some (.pred .lt) | "le" => some (.pred .le) | "gt" => some (.pred .gt)
   | "ge" => some (.pred .ge) | "eq" => some (.pred .eq) | "ne" => some (.pred .ne)
   | "and" => some .and | "or" => some .or | "implies" => some .implies
-  | "iff" => some .iff | "xor" => some .xor | _ => none
+  | "iff" => some .iff | "xor" => some .xor
+  | "psat_lt" => some (.predSat .lt) | "psat_le" => some (.predSat .le) | "psat_gt" => some (.predSat .gt)
+  | "psat_ge" => some (.predSat .ge) | "psat_eq" => some (.predSat .eq) | "psat_ne" => some (.predSat .ne)
+  | "pzero" => some .predZero
+  | _ => none
 
 def parseT1 : String → Option T1
   | "rise" => some .rise | "fall" => some .fall | "prev" => some .prev | "sprev" => some .sprev
@@ -44,6 +48,8 @@ def Bin.str : Bin → String
   | .pred .lt => "lt" | .pred .le => "le" | .pred .gt => "gt" | .pred .ge => "ge"
   | .pred .eq => "eq" | .pred .ne => "ne"
   | .and => "and" | .or => "or" | .implies => "implies" | .iff => "iff" | .xor => "xor"
+  | .predSat .lt => "psat_lt" | .predSat .le => "psat_le" | .predSat .gt => "psat_gt" | .predSat .ge => "psat_ge"
+  | .predSat .eq => "psat_eq" | .predSat .ne => "psat_ne" | .predZero => "pzero"
 
 def T1.str : T1 → String
   | .rise => "rise" | .fall => "fall" | .prev => "prev" | .sprev => "sprev" | .next => "next"
